@@ -667,3 +667,8 @@ CHECKS["C07"]["required_classes"]["all"] += ["mutation:field-boundary-moved"]
 CHECKS["C05"]["jobs"].append(J("accumulation", VSASL, "TestC05Accumulation", {"shards": 4, "checks": 8}, {"shards": 16, "checks": 300}))
 CHECKS["C05"]["required_classes"]["all"] += ["stalled-clients>=64", "undecodable-connections>=128-on-one-server"]
 CHECKS["C04"]["required_classes"]["all"] += ["agent-has-seen->=128-connections-without-a-request"]
+CHECKS["C15"]["jobs"].append(J("odd-layouts", VSTORE, "TestC15OddLayouts", {"shards": 4, "checks": 150}, {"shards": 16, "checks": 6000}))
+CHECKS["C15"]["required_classes"]["all"] += ["update-through-linked-hash-file", "base-directory:relative-symlink", "hash-file:hard-link-0644", "hash-file:empty-reservation-of-an-interrupted-add"]
+CHECKS["C03"]["jobs"].append(J("odd-layouts", VSTORE, "TestC15OddLayouts", {"shards": 2, "checks": 150}, {"shards": 8, "checks": 6000}))
+CHECKS["C16"]["jobs"].append(J("odd-layouts", VSTORE, "TestC15OddLayouts", {"shards": 2, "checks": 150}, {"shards": 8, "checks": 6000}))
+CHECKS["C16"]["required_classes"]["all"] += ["base-directory:absolute-symlink"]
